@@ -311,6 +311,56 @@ Definition rename (nm : bstr) (kv : bstr * bstr) : bstr * bstr :=
   (if beq (fst kv) [star] then nm else fst kv, snd kv).
 Definition opt_name (o : option bstr) : bstr := match o with Some n => n | None => [] end.
 
+
+(* ------------------------------------------- Handle: the wildPath regexp, on pattern text *)
+
+(* wildPath = regexp.MustCompile(`/{\*([a-zA-Z0-9_]+)}`). The name is the maximal run of name
+   bytes (a shorter run would be followed by a name byte, not by '}'): no backtracking. *)
+Fixpoint span_name (s : bstr) : bstr * bstr :=
+  match s with
+  | c :: r => if is_name_byte c then let (n, t) := span_name r in (c :: n, t) else ([], s)
+  | [] => ([], [])
+  end.
+
+(* a match that starts at the first byte: the captured name and what follows the match *)
+Definition wild_here (s : bstr) : option (bstr * bstr) :=
+  match s with
+  | a :: b :: c :: r =>
+    if Byte.eqb a slash && Byte.eqb b lbrace && Byte.eqb c star then
+      match span_name r with
+      | (n, d :: t) => if negb (is_nil n) && Byte.eqb d rbrace then Some (n, t) else None
+      | (_, []) => None
+      end
+    else None
+  | _ => None
+  end.
+
+(* wildPath.FindStringSubmatch(pattern)[1]: the leftmost match *)
+Fixpoint find_wild (s : bstr) : option bstr :=
+  match wild_here s with
+  | Some (n, _) => Some n
+  | None => match s with _ :: r => find_wild r | [] => None end
+  end.
+
+(* wildPath.ReplaceAllString(pattern, "/*"): non-overlapping matches, left to right; every
+   step consumes at least one byte, so length-of-input fuel is enough *)
+Fixpoint replace_wild_all (fuel : nat) (s : bstr) : bstr :=
+  match fuel with
+  | O => s
+  | S f =>
+    match wild_here s with
+    | Some (_, t) => slash :: star :: replace_wild_all f t
+    | None => match s with c :: r => c :: replace_wild_all f r | [] => [] end
+    end
+  end.
+
+(* what Handle gives to chi and what it files in the wildcard table, from the pattern text *)
+Definition rewrite_pattern (s : bstr) : bstr * option bstr :=
+  match find_wild s with
+  | Some n => (replace_wild_all (length s) s, Some n)
+  | None => (s, None)
+  end.
+
 (* ------------------------------------------------------------------- the mux *)
 
 Inductive method := GET | POST | PUT | DELETE | PATCH | HEAD | OPTIONS | TRACE | CONNECT.
@@ -571,3 +621,44 @@ End Dispatch.
 
 (* one particular precedence: the first matching route in registration order *)
 Definition first_pick : list bstr -> list route -> option route := fun _ cs => hd_error cs.
+
+(* ------------------------------------------------ chi's precedence (tree.findRoute) *)
+
+(* For patterns made of whole segments chi's radix tree search is a depth-first search over
+   the routes that still agree with the path: at each segment the routes continuing with that
+   literal (static edge) are tried first, then those continuing with a {name} (param edge, not
+   for an empty last segment), then a catch-all takes the rest; a branch that fails is
+   abandoned and the next kind is tried (backtracking). *)
+Definition adv_lit (x : bstr) (st : list (route * pattern)) : list (route * pattern) :=
+  flat_map (fun rp => match snd rp with Lit s :: q => if beq s x then [(fst rp, q)] else [] | _ => [] end) st.
+Definition adv_var (st : list (route * pattern)) : list (route * pattern) :=
+  flat_map (fun rp => match snd rp with Var _ :: q => [(fst rp, q)] | _ => [] end) st.
+Definition first_catchall (st : list (route * pattern)) : option route :=
+  match filter (fun rp => match snd rp with CatchAll _ :: _ => true | _ => false end) st with
+  | rp :: _ => Some (fst rp)
+  | [] => None
+  end.
+Definition first_done (st : list (route * pattern)) : option route :=
+  match filter (fun rp => is_nil (snd rp)) st with rp :: _ => Some (fst rp) | [] => None end.
+
+Fixpoint chi_dfs (segs : list bstr) (st : list (route * pattern)) : option route :=
+  match segs with
+  | [] => first_done st
+  | x :: segs' =>
+    match chi_dfs segs' (adv_lit x st) with
+    | Some r => Some r
+    | None =>
+      match (if is_nil x && is_nil segs' then None else chi_dfs segs' (adv_var st)) with
+      | Some r => Some r
+      | None => first_catchall st
+      end
+    end
+  end.
+
+Definition chi_pick : list bstr -> list route -> option route :=
+  fun segs cs => chi_dfs segs (map (fun r => (r, r_pat r)) cs).
+
+(* total version for the theorems stated over every `sound` precedence: chi_pick itself
+   wherever it answers (it always does on a non-empty matching set, see chi_pick_complete) *)
+Definition chi_pick_total : list bstr -> list route -> option route :=
+  fun segs cs => match chi_pick segs cs with Some r => Some r | None => hd_error cs end.
